@@ -523,7 +523,7 @@ func run(cfg workerCfg, noEvidence bool) int {
 			}
 		}
 		if sig != s {
-			fmt.Fprintf(os.Stderr, "NOT-REPRODUCED: violation %q seen by a worker did not reproduce in a fresh process (got %q); not reported as a verdict\n", s, sig)
+			fmt.Fprintf(os.Stderr, "NOT-REPRODUCED: violation %q seen by a worker did not reproduce in a fresh process (got %q); not reported as a verdict\n  what the worker saw: %s\n", s, sig, tail(v.What, 1500))
 			notReproduced++
 			continue
 		}
@@ -690,6 +690,22 @@ func fatalLine(stderr string) string {
 	return "(no fatal error line)"
 }
 
+// crashContext: the first stack frames after the fatal line (for the report; not part of the signature).
+func crashContext(stderr string) string {
+	i := strings.Index(stderr, "fatal error:")
+	if j := strings.Index(stderr, "panic: "); i < 0 || (j >= 0 && j < i) {
+		i = j
+	}
+	if i < 0 {
+		return ""
+	}
+	ctx := stderr[i:]
+	if len(ctx) > 1200 {
+		ctx = ctx[:1200]
+	}
+	return "\n" + ctx
+}
+
 // crashCase: worker w died. If it died of a Go fatal error, regenerate the case it was executing (the case
 // stream is a pure function of seed, tier and worker index) and return it as a violation candidate; the usual
 // fresh-process confirmation then decides whether it is reported.
@@ -716,7 +732,7 @@ func crashCase(cfg workerCfg, w int, pre, stderr string) *evid.Violation {
 	if err != nil {
 		return nil
 	}
-	return &evid.Violation{Property: cfg.Prop, Signature: "process-crash", What: "the worker executing this case was killed by the Go runtime: " + fatalLine(stderr), Case: raw, Seq: seq, W: w}
+	return &evid.Violation{Property: cfg.Prop, Signature: "process-crash", What: "the worker executing this case was killed by the Go runtime: " + fatalLine(stderr) + crashContext(stderr), Case: raw, Seq: seq, W: w}
 }
 
 // historyCase: "re-execute worker W's case stream up to case Seq" (see the NOT-REPRODUCED fallback in run).
